@@ -265,7 +265,7 @@ func (c *cyclo) ops() []cycOp {
 	add("CyclotomicSquare", 6, runCycSquare)
 	add("CyclotomicSquareCompressed", 10, runKarabina)
 	add("CyclotomicExp", 3, runCycExp)
-	add("ExpGLV", 3, runCycExp)
+	add("ExpGLV", 5, runCycExp)
 	add("Exp", 1, runCycExp)
 	add("InverseUnitary", 3, runCycInverse)
 	add("Conjugate", 1, runCycInverse)
@@ -436,13 +436,105 @@ func (c *cyclo) pattern(y ref.V) string {
 func runCycExp(t *rapid.T, c *cyclo, name string) {
 	lv, K := c.top, c.sx.K
 	xv, cls := c.genCyclo(t, "x", name == "ExpGLV") // ExpGLV: "x must be in GT"
-	k, kc := gen.Int(t, c.f.curve.R, lv.expBits(), "k")
+	var k *big.Int
+	var kc string
+	extra := []string{}
+	if uniP(t, 1, "ksrc") == 0 {
+		var g1, g2 string
+		k, kc, g1, g2 = c.glvExponent(t, "k")
+		extra = append(extra, "glv:"+glvCoarse(g1)+"_"+glvCoarse(g2), "glv_len:"+g1+"_"+g2)
+	} else {
+		k, kc = gen.Int(t, c.f.curve.R, lv.expBits(), "k")
+	}
 	x := lv.new(xv)
 	z := lv.poisoned()
 	reg.M(z, name, x, k)
 	lv.check(t, fmt.Sprintf("%s(%s [%s], %s)", name, ref.String(xv), cls, k), z, ref.Exp(K, xv, k))
 	lv.check(t, name+": operand after the call", x, xv)
-	c.record(name, key(xv, k), "x:"+cls, "k:"+kc)
+	c.record(name, key(xv, k), append([]string{"x:" + cls, "k:" + kc}, extra...)...)
+}
+
+// glvExponent synthesises k = k1 + k2*lambda (lambda = p mod r, the eigenvalue of the p-power
+// Frobenius on GT, derived here from p and r alone) from two halves whose bit lengths are drawn
+// independently: 0, 1..63, exactly 64, 65..72 (just over a word), 73..127, at the lattice bound (half of bitlen(r) +-1) and
+// above it, with each sign pattern, then as is / reduced mod r / negative representative / plus a
+// multiple of r. Endomorphism-accelerated exponentiations scan the two halves word by word, so
+// the lopsided splits (one half within one 64-bit word, the other not) are their boundary cases;
+// random exponents have two ~bitlen(r)/2-bit halves and never reach them.
+func (c *cyclo) glvExponent(t *rapid.T, label string) (k *big.Int, cls, c1, c2 string) {
+	r := c.f.curve.R
+	lambda := new(big.Int).Mod(c.f.p, r)
+	hb := (r.BitLen() + 1) / 2
+	half := func(lbl string) (*big.Int, string) {
+		var n int
+		cat := ""
+		switch uni(t, 10, lbl+"cat") {
+		case 0:
+			return new(big.Int), "zero"
+		case 1, 2:
+			n, cat = 1+uni(t, 63, lbl+"n"), "short"
+			if uniP(t, 2, lbl+"hi") != 0 {
+				n = 40 + uni(t, 24, lbl+"n2") // 2^40 .. 2^63
+			}
+		case 3:
+			n, cat = 64, "w64"
+		case 4, 5:
+			n, cat = 65+uni(t, 8, lbl+"n"), "over" // just over one 64-bit word
+		case 6, 7:
+			n, cat = 73+uni(t, 55, lbl+"n"), "long"
+		case 8:
+			n, cat = hb-1+uni(t, 3, lbl+"n"), "bound"
+		default:
+			n, cat = hb+2+uni(t, 9, lbl+"n"), "above"
+		}
+		b := rapid.SliceOfN(rapid.Byte(), (n+7)/8, (n+7)/8).Draw(t, lbl+"v")
+		v := new(big.Int).SetBytes(b)
+		v.And(v, new(big.Int).Sub(new(big.Int).Lsh(big.NewInt(1), uint(n)), big.NewInt(1)))
+		v.SetBit(v, n-1, 1)
+		if uniP(t, 7, lbl+"ones") == 0 {
+			v.Sub(new(big.Int).Lsh(big.NewInt(1), uint(n)), big.NewInt(1)) // 2^n - 1
+		}
+		return v, cat
+	}
+	k1, c1 := half(label + "a")
+	k2, c2 := half(label + "b")
+	sg := uni(t, 4, label+"sign")
+	if sg&1 != 0 {
+		k1.Neg(k1)
+	}
+	if sg&2 != 0 {
+		k2.Neg(k2)
+	}
+	k = new(big.Int).Mul(k2, lambda)
+	k.Add(k, k1)
+	cls = []string{"glv_pp", "glv_np", "glv_pn", "glv_nn"}[sg]
+	switch uni(t, 5, label+"red") {
+	case 0:
+		cls += "_raw"
+	case 1, 2:
+		k.Mod(k, r)
+		cls += "_modr"
+	case 3:
+		k.Mod(k, r)
+		k.Sub(k, r)
+		cls += "_negrep"
+	default:
+		k.Mod(k, r)
+		k.Add(k, new(big.Int).Mul(r, big.NewInt(int64(1+uni(t, 3, label+"m")))))
+		cls += "_plus_mr"
+	}
+	return
+}
+
+// glvCoarse maps a half-length category to short (fits one 64-bit word), long, or zero.
+func glvCoarse(cat string) string {
+	switch cat {
+	case "zero":
+		return "zero"
+	case "short", "w64":
+		return "short"
+	}
+	return "long"
 }
 
 func runFixedExp(t *rapid.T, c *cyclo, name string) {
@@ -521,4 +613,45 @@ func runTorus(t *rapid.T, c *cyclo, name string) {
 	bp.Elem().Set(reflect.ValueOf(back))
 	lv.check(t, "DecompressTorus(CompressTorus(x)), x="+ref.String(xv)+" ["+cls+"]", bp.Interface(), xv)
 	c.record(name, key(xv), "x:"+cls)
+}
+
+// TestC06_GLVExp concentrates on the exponent domain of the GT exponentiations: for x in GT
+// (a small reference power of the validated pairing value) and k synthesised from GLV halves of
+// independently drawn lengths, ExpGLV(x,k) = CyclotomicExp(x,k) = Exp(x,k) = x^k by the reference.
+func TestC06_GLVExp(t *testing.T) {
+	forCurves(t, func(t *testing.T, c *cyclo) {
+		lv, K := c.top, c.sx.K
+		var methods []string
+		for _, m := range []string{"ExpGLV", "CyclotomicExp", "Exp"} {
+			if hasMethod(lv.T, m) {
+				methods = append(methods, m)
+			}
+		}
+		if !hasMethod(lv.T, "ExpGLV") {
+			t.Skip("no ExpGLV on this curve")
+		}
+		// a few GT elements, computed once
+		xs := make([]ref.V, 6)
+		for i := range xs {
+			xs[i] = ref.Exp(K, c.gtGen, big.NewInt(int64(1+7*i)))
+		}
+		test := "C06_GLVExp/" + c.f.name
+		rapid.Check(t, func(t *rapid.T) {
+			xv := xs[uni(t, len(xs), "x")]
+			if uniP(t, 3, "conj") == 0 {
+				xv = c.sx.Conj(xv)
+			}
+			k, kc, g1, g2 := c.glvExponent(t, "k")
+			want := ref.Exp(K, xv, k)
+			// ExpGLV always, one of the other two as well
+			ms := []string{"ExpGLV", methods[1+uni(t, len(methods)-1, "other")]}
+			for _, m := range ms {
+				x := lv.new(xv)
+				z := lv.poisoned()
+				reg.M(z, m, x, k)
+				lv.check(t, fmt.Sprintf("%s(x, k) for x in GT, k = k1 + k2*lambda with |k1| %s, |k2| %s (%s), k=%s, x=%s", m, g1, g2, kc, k, ref.String(xv)), z, want)
+			}
+			rep.Case(test, c.f.name+" "+key(xv, k), true, "ExpGLV", ms[1], "k:"+kc, "glv:"+glvCoarse(g1)+"_"+glvCoarse(g2), "glv_len:"+g1+"_"+g2)
+		})
+	})
 }
